@@ -211,7 +211,7 @@ theorem lost_iff (os : List Outcome) :
 def outcomes : List Obs → List Outcome
   | [] => []
   | .resp o _ :: tr => o :: outcomes tr
-  | .start _ :: tr | .req _ :: tr | .failure _ :: tr | .ended _ :: tr | .cut _ :: tr => outcomes tr
+  | .start _ :: tr | .req _ :: tr | .failure _ :: tr | .ended _ :: tr | .crashed _ :: tr | .cut _ :: tr => outcomes tr
 
 def isFailureObs : Obs → Bool
   | .failure _ => true
@@ -285,6 +285,11 @@ theorem inv_step (s : M) (h : List Obs) (e : Obs) (s' : M) (hi : Inv s h)
     obtain ⟨-, rfl⟩ := hs
     exact ⟨by simpa [outcomes] using hph, by simpa [mark] using hlast,
       by simpa [isFailureObs] using hcnt, hfl⟩
+  | crashed t =>
+    simp only [mstep?, Option.ite_none_right_eq_some, Option.some.injEq] at hs
+    obtain ⟨-, rfl⟩ := hs
+    exact ⟨by simpa [outcomes] using hph, by simpa [mark] using hlast,
+      by simpa [isFailureObs] using hcnt, hfl⟩
   | cut t =>
     simp only [mstep?] at hs
     split at hs
@@ -337,6 +342,34 @@ theorem mon_ended_failure_iff (tr : List Obs) (t : Nat) (m : M)
         false_or, true_and] at hcnd
       rw [hc, hcnd.2]; rfl
     · simp at h2
+
+/-- **An exception of `on_failure` never leads to a second declaration**: a task
+that ended with the exception its `on_failure` raised had started `on_failure`
+exactly once, after outcomes that gave up; and nothing is accepted afterwards. -/
+theorem mon_crashed_after_one_failure (tr : List Obs) (t : Nat) (m : M)
+    (h : Accepted (tr ++ [.crashed t]) m) :
+    nFailureObs tr = 1 ∧ nFailureObs (tr ++ [.crashed t]) = 1 ∧
+      ∃ pre o post, outcomes tr = pre ++ o :: post ∧ Alive pre ∧ GivesUp pre o := by
+  obtain ⟨m', h1, h2⟩ := runM_snoc mstep? {} m tr (.crashed t) h
+  obtain ⟨hph, -, hc, hfl⟩ := accepted_inv tr m' h1
+  simp only [mstep?, Option.ite_none_right_eq_some, Option.some.injEq, Bool.and_eq_true,
+    decide_eq_true_eq] at h2
+  have hf : m'.failed = true := h2.1.2
+  have h1' : nFailureObs tr = 1 := by rw [hc, hf]; rfl
+  refine ⟨h1', by rw [nFailureObs_snoc, h1']; rfl, ?_⟩
+  exact mon_failure_only_after_giving_up tr m' h1 (by omega)
+
+/-- Once the task has ended (by itself or with `on_failure`'s exception) nothing
+more is accepted: no request, no further `on_failure`. -/
+theorem mon_nothing_after_end (m : M) (hc : m.closed = true) (e : Obs) : mstep? m e = none ∨ ∃ t, e = .start t := by
+  cases e with
+  | start t => exact .inr ⟨t, rfl⟩
+  | req t => left; simp only [mstep?]; split <;> simp [hc]
+  | resp o t => left; simp [mstep?, hc]
+  | failure t => left; simp [mstep?, hc]
+  | ended t => left; simp [mstep?, hc]
+  | crashed t => left; simp [mstep?, hc]
+  | cut t => left; simp only [mstep?]; split <;> simp [hc]
 
 /-- `None` ends the heartbeat silently. -/
 theorem mon_gone_silent (tr : List Obs) (m : M) (h : Accepted tr m)
